@@ -294,6 +294,7 @@ def run(rep, info, model, tier, seed):
     if model is not None:
         single = [sc for sc in scs if len(set(t for t, _ in sc["arrivals"][1:])) == 1]
         mres = model.run([[40, sc["tls"], [b for _, b in sc["arrivals"][1:]]] for sc in single])
+        rep.watch_extraction(model, [[40, 2, [b"abc" * 100, b"d" * 50]], [40, 1, [b"x" * 300, b"y"]], [40, 0, [b"q" * 10]]])
         for sc, m in zip(single, mres):
             got = [r for _, r in sc["_recv_log"][1:]]     # first read is the handshake
             if m[0] != got or m[1] != 0:
